@@ -174,6 +174,7 @@ class Engine:
         self.tag_of: dict[int, Any] = {}  # id(object) -> tag
         self.factory_calls: dict[int, int] = {}
         self.kept_events: list[Any] = []
+        self._ctx_class: Any = None
         self.factory_body_runs: dict[int, int] = {}
         self.factories: dict[int, Any] = {}
         self.next_id = 0
@@ -396,6 +397,16 @@ class Engine:
         for e in exp:
             self.bad("announce-missing", f"{cmd}: expected exactly one ResourceEvent {self.fmt_events([e])} but none was dispatched")
 
+    @property
+    def Ctx(self) -> Any:  # noqa: N802
+        """the class of the contexts of this history: Context, or (falsy_contexts) a subclass whose instances are falsy - an
+        attribute-bag / container-like context that is empty - which are contexts like any other"""
+        if self._ctx_class is None:
+            from asphalt.core import Context
+
+            self._ctx_class = type("BagContext", (Context,), {"__len__": lambda self: 0}) if self.p.get("falsy_contexts") else Context
+        return self._ctx_class
+
     def check_kept_events(self) -> None:
         """what a listener received stays what it was: every dispatch delivers an event object of its own, and an event keeps
         its source and fields however many publications follow in this or other contexts"""
@@ -504,21 +515,21 @@ class Engine:
                 # root contexts of a subclass with value semantics: all of them compare and hash equal
                 # (think of contexts compared by a request id); they are still different contexts
                 if not hasattr(self, "_EqRoot"):
-                    self._EqRoot = type("EqRoot", (Context,), {"__eq__": lambda a, b: type(a) is type(b), "__hash__": lambda a: 11})
+                    self._EqRoot = type("EqRoot", (self.Ctx,), {"__eq__": lambda a, b: type(a) is type(b), "__hash__": lambda a: 11})
                 ctx = self._EqRoot()
                 self.inc("value_equal_root_contexts")
             else:
-                ctx = Context()
+                ctx = self.Ctx()
         elif how == "explicit":
-            ctx = Context(self.ctx_objs[parent])
+            ctx = self.Ctx(self.ctx_objs[parent])
         else:  # implicit: constructed inside the parent's task, where it is the current context
             async def make() -> Any:
                 if how == "explicit_current":
                     # what current_context() returns is passed explicitly (inside a component that is the component's context)
                     from asphalt.core import current_context
 
-                    return Context(current_context())
-                return Context()
+                    return self.Ctx(current_context())
+                return self.Ctx()
 
             kind, ctx = await self.call_in(parent, make)
             if kind != "ok":
@@ -892,7 +903,7 @@ class Engine:
         tmp_parent = cmd.get("tmp_parent", parent)
 
         async def seq() -> Any:
-            tmp = Context() if tmp_parent == parent else Context(self.ctx_objs[tmp_parent])
+            tmp = self.Ctx() if tmp_parent == parent else self.Ctx(self.ctx_objs[tmp_parent])
             self.ctx_objs[tmp_cid] = tmp
             self.cid_of[id(tmp)] = tmp_cid
             try:
@@ -907,7 +918,7 @@ class Engine:
                         raise Boom("block of the short-lived sibling failed")
             except (Boom, BaseExceptionGroup):
                 pass
-            return Context()
+            return self.Ctx()
 
         kind, new = await self.call_in(parent, seq)
         if kind != "ok":
@@ -1220,6 +1231,7 @@ def default_params(rng: Any, **over: Any) -> dict[str, Any]:
         "weights": dict(DEFAULT_WEIGHTS),
         "apis": list(ALL_APIS),
         "equal_roots": rng.random() < 0.3,
+        "falsy_contexts": rng.random() < 0.2,
     }
     p.update(over)
     return p
